@@ -141,91 +141,23 @@ def _is_input_array(node) -> bool:
     return t.replace('"', "'").endswith("['candles']")
 
 
-def check_loop_protocol(repo, rep):
-    rid = "C02-R1"
-    rep.rule(rid, "per simulated step and symbol: the new 1m candle(s) are matched against resting orders exactly once, "
-                  "after gap normalisation of the step's first candle with the element just before it (every step but the first; further "
-                  "candles of a fast-mode chunk are normalised in an inner loop, decided by C02-R2h), and before any strategy executes")
-    rid6 = "C02-R6"
-    rep.rule(rid6, "market orders queued by a strategy step are flushed in the same step: a call reaching "
-                   "execute_pending_market_orders follows the last strategy execution of every iteration, and every "
-                   "_terminate() in the epilogue")
-    for sim, eff in (("_step_simulator", "_simulate_price_change_effect"),
-                     ("_skip_simulator", "_simulate_price_change_effect_multiple_candles")):
-        want = {"add_candle", "_get_fixed_jumped_candle", eff, "_execute", "execute_pending_market_orders", "_terminate"}
-        view = SL.sim_view(repo, sim, want, guards=lambda t: "first" if norm(t) in ("i != 0", "i > 0", "i >= 1", "i") else None)
-        if not view["iters"]:
-            raise AnalysisError(f"{sim}: no loop iterations found")
-        for evs in view["iters"]:
-            key = f"{sim}|{' '.join(SL.names(evs))}"
-            segs = SL.segments(evs, "sym")
-            for seg in segs:
-                # events inside a further inner loop of the symbol iteration (e.g. the fast simulator's loop over the other candles
-                # of the chunk, each normalised against its predecessor) are not part of the head-of-step protocol
-                depth, head = 0, []
-                for e in seg:
-                    if e[0] == "loop" and (str(e[1]).startswith("loop:") or e[1] == "while"):
-                        depth += 1
-                    elif e[0] == "endloop" and (str(e[1]).startswith("loop:") or e[1] == "while"):
-                        depth -= 1
-                    elif depth == 0 or not (e[0] == "call" and e[1] == "_get_fixed_jumped_candle"):
-                        head.append(e)
-                nm = [e for e in head if e[0] in ("call", "guard")]
-                effs = [i for i, e in enumerate(nm) if e[0] == "call" and e[1] == eff]
-                if len(effs) != 1:
-                    rep.violation(rid, f"{sim}|match-once", f"{sim}: {eff} is called {len(effs)} times (expected exactly once) "
-                                                             f"per symbol and step on path {SL.names(seg)}")
-                    continue
-                pos = effs[0]
-                if sim == "_step_simulator":
-                    adds = [i for i, e in enumerate(nm[:pos]) if e[0] == "call" and e[1] == "add_candle"]
-                    if not adds:
-                        rep.violation(rid, f"{sim}|add-before-match", f"{sim}: the new 1m candle is not stored before matching on path {SL.names(seg)}")
-                g = [e for e in nm[:pos] if e[0] == "guard" and e[1] == "first"]
-                fixes = [e for e in nm[:pos] if e[0] == "call" and e[1] == "_get_fixed_jumped_candle"]
-                if g and g[0][2] is True and len(fixes) != 1:
-                    rep.violation(rid, f"{sim}|jump-fix-applied", f"{sim}: gap normalisation is applied {len(fixes)} times on a non-first step (path {SL.names(seg)})")
-                if not g and len(fixes) != 1:
-                    rep.violation(rid, f"{sim}|jump-fix-applied", f"{sim}: gap normalisation not applied exactly once before matching (path {SL.names(seg)})")
-                rep.instance(rid, f"{sim}|sym|{' '.join(SL.names(seg))}", {"sim": sim, "symbol-iteration": SL.names(seg)})
-            # all matching precedes all strategy executions
-            eff_idx = [i for i, e in enumerate(evs) if e[0] == "call" and e[1] == eff]
-            ex_idx = [i for i, e in enumerate(evs) if e[0] == "call" and e[1] == "_execute"]
-            if eff_idx and ex_idx and max(eff_idx) > min(ex_idx):
-                rep.violation(rid, f"{sim}|match-before-execute", f"{sim}: a strategy executes before all symbols were matched in the step")
-            flush_idx = [i for i, e in enumerate(evs) if e[0] == "call" and e[1] == "execute_pending_market_orders"]
-            if ex_idx:
-                if not flush_idx or max(flush_idx) < max(ex_idx):
-                    rep.violation(rid6, f"{sim}|flush-after-execute", f"{sim}: no market-order flush after the last strategy execution of a step (path {SL.names(evs)})")
-                rep.instance(rid6, f"{sim}|iter|{' '.join(SL.names(evs))}")
-        for evs in view["post"]:
-            t_idx = [i for i, e in enumerate(evs) if e[0] == "call" and e[1] == "_terminate"]
-            f_idx = [i for i, e in enumerate(evs) if e[0] == "call" and e[1] == "execute_pending_market_orders"]
-            for k, ti in enumerate(t_idx):
-                nxt = t_idx[k + 1] if k + 1 < len(t_idx) else len(evs)
-                if not any(ti < f < nxt for f in f_idx):
-                    rep.violation(rid6, f"{sim}|flush-after-terminate", f"{sim}: _terminate() is not followed by a market-order flush")
-            if t_idx:
-                rep.instance(rid6, f"{sim}|post|{' '.join(SL.names(evs))}")
-        # argument provenance of the gap normalisation: (element just before the new candle(s), first new candle)
-        fns = [repo.func(BT, sim)] + ([repo.func(BT, "_simulate_new_candles")] if repo.has_func(BT, "_simulate_new_candles") else [])
-        found = 0
-        for fn in fns:
-            for c in ast.walk(fn):
-                if isinstance(c, ast.Call) and SL.last(SL.dotted(c.func)) == "_get_fixed_jumped_candle" and len(c.args) >= 2:
-                    found += 1
-                    prev = _index_of_candle_ref(fn, c.args[0])
-                    cur = _index_of_candle_ref(fn, c.args[1])
-                    ok = bool(prev) and bool(cur) and any((p + Poly.const(1)) == q for p in prev for q in cur)
-                    if not ok:
-                        rep.violation(rid, f"{sim}|jump-fix-args",
-                                      f"{fn.name}: gap normalisation is not applied to (candle[k-1], candle[k]) of the input: "
-                                      f"{norm(c)} with indices prev={prev} cur={cur}")
-                    rep.instance(rid, f"{fn.name}|jump-fix-args", {"call": norm(c), "prev_index": repr(prev), "cur_index": repr(cur)})
-        if found == 0:
-            raise AnalysisError(f"{sim}: call to _get_fixed_jumped_candle not found")
-    rep.floor(rid, 6)
-    rep.floor(rid6, 4)
+def check_session_rules(repo, rep):
+    """C02-R1 / R6 / R7 on abstractly interpreted mini sessions (props/sessions.py)"""
+    from props import sessions as S
+    rep.rule("C02-R1", "both simulator functions interpreted whole on mini sessions (one / two symbols, data symbol, 1m / 3m / 5m / 15m routes, "
+                       "lengths that are not a multiple of the timeframe; matcher, order store, strategies and gap normalisation recorded): "
+                       "the candle handed to the matcher for minute m of a symbol is that symbol's input candle m, gap-normalised exactly "
+                       "once against candle m-1 of the same symbol (m > 0) - also inside a fast-mode chunk")
+    S.check_fed_candles(repo, rep, "C02-R1")
+    rep.rule("C02-R6", "same sessions: after every minute the simulator steps over (and every chunk end) nothing of the end-of-minute "
+                       "protocol happens before every symbol has been matched; then per route the strategy executes iff its candle "
+                       "closed and the route's active orders are pruned; then the pending MARKET orders are executed (a MARKET order is "
+                       "filled before any later candle is processed); after the last minute every _terminate() is followed by a flush")
+    S.check_protocol(repo, rep, "C02-R6")
+    rep.rule("C02-R7", "same sessions: every minute of every symbol is fed to the matcher exactly once, in order, and with several symbols "
+                       "minute-major - every symbol's minute m before any symbol's minute m+1 (an order that a hook of symbol A creates "
+                       "for symbol B at minute m may only be matched against B's candles from m on)")
+    S.check_cover(repo, rep, "C02-R7")
 
 
 # ------------------------------------------------------------------ matching loop (shared exhaustive runs)
@@ -325,119 +257,6 @@ def check_fast_gap(repo, rep, tier):
                     rep.violation(rid, "fast-gap|price", f"order {nm} fills at {price}, not at its own price {own}, for {desc}")
         rep.instance(rid, desc, {"ordering": desc, "fast": repr(res["fast"])} if n % 300 == 1 else None)
     rep.floor(rid, 500)
-
-
-def check_symbol_interleaving(repo, rep, rid="C02-R7", protocol=True):
-    rep.rule(rid, "several symbols advance minute by minute: an order that a hook of symbol A creates for symbol B at minute m may only be "
-                  "matched against B's candles from m on, and the candles / prices of B that A's hooks read must be those of minute m. "
-                  "Decided by executing each simulator's feeding function abstractly for two symbols with the matcher replaced by a "
-                  "recorder: the recorded (symbol, first minute, number of minutes) sequence must be minute-major - every symbol's "
-                  "minute m before any symbol's minute m+1 - and cover the chunk exactly once per symbol"
-                  + ("; between two minutes of one chunk every symbol's active-order list is pruned and then the pending MARKET orders are "
-                     "executed, as the normal simulator does at the end of every minute (a MARKET order submitted by a fill hook is executed "
-                     "before any later candle is processed)" if protocol else ""))
-    from vlib.absint import Frame
-    MINUTE = 60_000
-    t0 = 1_600_000_020_000 // MINUTE * MINUTE
-
-    def cds(n):
-        def rows(tag):
-            return Arr2([Arr([num(t0 + k * MINUTE)] + [R.atom(f"{tag}{x}{k}") for x in "ochlv"]) for k in range(n)])
-        return {"Sandbox-AAA-USDT": {"exchange": "Sandbox", "symbol": "AAA-USDT", "candles": rows("a")},
-                "Sandbox-BBB-USDT": {"exchange": "Sandbox", "symbol": "BBB-USDT", "candles": rows("b")}}
-    for sim, start, step in (("_skip_simulator", 2, 3), ("_skip_simulator", 0, 2), ("_step_simulator", 1, 1)):
-        calls = []
-        stubs = W.base_stubs()
-        eff = "_simulate_price_change_effect_multiple_candles" if sim == "_skip_simulator" else "_simulate_price_change_effect"
-
-        events = []
-
-        def rec(it, a, k, calls=calls, sim=sim, events=events):
-            c = a[0]
-            if sim == "_skip_simulator":
-                rows = c.rows
-                calls.append((a[2], int(rows[0].items[0].const_value() - t0) // MINUTE, len(rows)))
-            else:
-                calls.append((a[2], int(c.items[0].const_value() - t0) // MINUTE, 1))
-            events.append(("match",) + calls[-1])
-        stubs[f"{BT}:{eff}"] = rec
-        stubs[f"{BT}:_get_fixed_jumped_candle"] = lambda it, a, k: a[1]
-        it = Interp(repo, stubs=stubs)
-        it.overrides["jesse/config.py:config"] = {"app": {"considering_timeframes": ("1m",)}, "env": {}}
-        cs = Obj("CandlesState", name="store.candles", attrs={}, open_world=True)
-        W.bind(cs, "add_candle", lambda i, a, k: None)
-        so = Obj("OrdersState", name="store.orders", attrs={}, open_world=True)
-        W.bind(so, "update_active_orders", lambda i, a, k, events=events: events.append(("prune", a[1])))
-        W.bind(so, "execute_pending_market_orders", lambda i, a, k, events=events: events.append(("flush",)))
-        it.overrides[f"{W.STORE}:store"] = Obj("StoreClass", name="store", attrs={"candles": cs, "orders": so, "app": Obj("AppState", name="app", attrs={}, open_world=True)}, open_world=True)
-        it.overrides["jesse/routes/__init__.py:router"] = Obj("RouterClass", name="router", attrs={
-            "routes": [Obj("Route", name=f"route-{sy}", attrs={"exchange": "Sandbox", "symbol": sy, "timeframe": "3m"}, open_world=True) for sy in ("AAA-USDT", "BBB-USDT")]}, open_world=True)
-        it.stubs[f"{W.HELPERS}:is_debuggable"] = lambda i, a, k: False
-        candles = cds(6)
-        try:
-            if sim == "_skip_simulator":
-                fn = repo.func(BT, "_simulate_new_candles")
-                it.call(FuncV(fn, repo.module(BT), qual="_simulate_new_candles"), [candles, num(start), num(step)], {})
-            else:
-                # one iteration of the step simulator's time loop: its per-symbol loop
-                fns = repo.func(BT, "_step_simulator")
-                tl = [n for n in ast.walk(fns) if isinstance(n, ast.For) and SL.loop_id(n) == "time"][0]
-                sym = [n for n in tl.body if isinstance(n, ast.For) and SL.loop_id(n) == "sym"]
-                if len(sym) != 1:
-                    raise AnalysisError("_step_simulator: per-symbol loop not found in the time loop")
-                fr = Frame(repo.module(BT), {"candles": candles, "i": num(start), "length": num(6)})
-                it.exec(sym[0], fr)
-        except NotInFragment as e:
-            raise AnalysisError(f"{sim}: feeding function not interpretable: {e}")
-        # minute-major and exact cover
-        want_minutes = list(range(start, start + step))
-        cover = {}
-        order_ok = True
-        last_end = -1
-        for symb, m0, ln in calls:
-            cover.setdefault(symb, []).extend(range(m0, m0 + ln))
-        for idx in range(1, len(calls)):
-            prev, cur = calls[idx - 1], calls[idx]
-            # a later call must not start before the END of an earlier call of ANOTHER symbol has been reached by every symbol:
-            # equivalent for two symbols: no call may start at a minute smaller than the largest minute already fed to the other symbol
-            pass
-        fed = {}
-        for symb, m0, ln in calls:
-            others_max = max([max(v) for s_, v in fed.items() if s_ != symb] or [-1])
-            mine_max = max(fed.get(symb, [-1]))
-            # feeding symb up to minute m0+ln-1 while another symbol is still behind by more than one minute, or ahead by more than
-            # one minute, breaks the minute-major order
-            if m0 + ln - 1 > others_max + 1 and ln > 1:
-                order_ok = False
-            fed.setdefault(symb, []).extend(range(m0, m0 + ln))
-        exact = all(sorted(cover.get(sy, [])) == want_minutes for sy in ("AAA-USDT", "BBB-USDT"))
-        if not exact:
-            rep.violation(rid, f"{sim}|cover", f"{sim} (two symbols, start {start}, step {step}): the matcher is fed {calls}, expected every minute of {want_minutes} exactly once per symbol")
-        elif not order_ok:
-            rep.violation(rid, f"{sim}|symbol-major-chunk",
-                          f"{sim} (two symbols, start {start}, step {step}): the matcher is fed {calls} - a whole multi-minute chunk of one symbol before the next symbol's: an "
-                          f"order created for another symbol by a hook at minute m is matched against that symbol's earlier minutes of the chunk (executed before it was "
-                          f"submitted) or misses its later ones, and the other symbols' candles and prices seen by a hook are up to a chunk off")
-        # end-of-minute protocol between two minutes of one chunk: the normal simulator prunes every route's active-order list and
-        # executes the pending MARKET orders after every minute (chunk ends are handled by the simulator's own loop)
-        if protocol and sim == "_skip_simulator" and exact and order_ok:
-            midx = [i for i, e in enumerate(events) if e[0] == "match"]
-            for a, b in zip(midx, midx[1:]):
-                if events[b][2] == events[a][2]:
-                    continue          # same minute, next symbol
-                between = events[a + 1:b]
-                fl = [i for i, e in enumerate(between) if e == ("flush",)]
-                pruned = {e[1] for e in between[:fl[0]] if e[0] == "prune"} if fl else set()
-                if not fl or pruned != {"AAA-USDT", "BBB-USDT"}:
-                    rep.violation(rid, f"{sim}|minute-end-protocol",
-                                  f"{sim} (two symbols, start {start}, step {step}): between the matching of minute {events[a][2]} and minute {events[b][2]} of one chunk the "
-                                  f"simulator does {between or 'nothing'}; as at the end of every minute of the normal simulator, every symbol's active-order list must be "
-                                  f"pruned and the pending MARKET orders executed - otherwise a MARKET order submitted by a fill hook of minute {events[a][2]} is still "
-                                  f"pending while minute {events[b][2]} is matched (it fills a minute late or is overtaken by a resting order), and executed orders stay "
-                                  f"listed as active for an extra minute")
-                    break
-        rep.instance(rid, f"{sim}|start={start}|step={step}", {"simulator": sim, "matcher_calls": calls, "events": [list(map(str, e)) for e in events]})
-    rep.floor(rid, 3)
 
 
 # ------------------------------------------------------------------ market orders
@@ -604,12 +423,11 @@ def run(repo: Repo, rep, tier: str):
     rep.assume("hooks, exchange ledgers and candle storage are abstract event sinks in the matching-loop runs")
     rep.guarded(check_includes, repo, rep)
     rep.guarded(check_jump_fix, repo, rep)
-    rep.guarded(check_loop_protocol, repo, rep)
+    rep.guarded(check_session_rules, repo, rep)
     rep.guarded(check_match_loop, repo, rep, tier)
     rep.guarded(check_fast_chunk, repo, rep, tier)
     rep.guarded(check_fast_one_candle, repo, rep, tier)
     rep.guarded(check_fast_gap, repo, rep, tier)
-    rep.guarded(check_symbol_interleaving, repo, rep)
     rep.guarded(check_market_orders, repo, rep)
     rep.guarded(check_field_writers, repo, rep)
     rep.undecided_item("exact fill minute of an order inside a fast-mode chunk (see C12)")
@@ -618,19 +436,20 @@ def run(repo: Repo, rep, tier: str):
 
 CLAIM = {
     "engine": "absint+traces",
-    "technique": "abstract interpretation of the matching loop over the order domain + trace rules (exactly-once, ordering) on both simulator loops",
+    "technique": "abstract interpretation of the matching loop over the order domain; abstract interpretation of both simulator functions on mini sessions with recorded effects (event-sequence rules)",
     "text": "Static. (1) Exhaustive abstract execution of /repo's 1m matching loop for every weak ordering of O/H/L/C, up to 3 "
             "resting order prices, a cancelled order and a reaction order: exactly the active orders whose price lies in the "
             "candle range (on the remaining path) fill, once, at their own price; none is left unfilled; cancelled ones never fill. "
             "(2) candle_includes_price is the closed interval; gap normalisation (_get_fixed_jumped_candle) is exact in every "
             "ordering and is applied to (candle[k-1], candle[k]) on every step but the first, in both simulators. "
-            "(3) Trace rules: matching happens exactly once per symbol and step, before any strategy runs; market orders are "
-            "priced at the current price, queued, and flushed after the last strategy execution of each step and after every "
-            "_terminate(). (4) Nobody rewrites an order's price/qty/side/type. (5) Fast simulator: the chunk matcher is executed "
+            "(3) Both simulator functions are interpreted whole on mini sessions (one / two symbols, a data symbol, 1m..15m routes, "
+            "tails shorter than a chunk) with the matcher, the order store, the strategies and the gap normalisation recorded: every "
+            "minute of every symbol is matched exactly once, minute-major, with the gap-normalised input candle, before any strategy "
+            "runs; after every minute / chunk the routes are pruned and the pending MARKET orders executed, also between the minutes "
+            "of a multi-symbol chunk and after every _terminate(); market orders are priced at the current price and queued. (4) Nobody rewrites an order's price/qty/side/type. (5) Fast simulator: the chunk matcher is executed "
             "abstractly on two-minute chunks with two orders, on one-candle chunks with two / three orders in both storage orders "
             "and a reaction order, and - through _simulate_new_candles - on chunks with a gap inside: exactly the touched orders "
-            "fill, once, at their own price. (6) Several symbols: the matcher must receive one minute per symbol inside the "
-            "per-symbol loop (minute-major order); the fast simulator's `_simulate_new_candles` is executed for two symbols and a three-minute chunk and must call the matcher minute-major. "
+            "fill, once, at their own price. "
             "Not decided: exact fill minute inside fast-mode chunks (C12), k>3 simultaneous orders.",
-    "note": "Trusted: interpreter = CPython semantics on the subset; loops in trace rules unrolled 0/1 times; mode predicates fixed to backtest.",
+    "note": "Trusted: interpreter = CPython semantics on the subset; mode predicates fixed to backtest; the mini sessions are finite samples of session shapes (the per-minute matching itself is exhaustive).",
 }
